@@ -480,8 +480,7 @@ def gen_timed_prog(rng, max_actors=4, max_ops=6):
                 ops.append(op("execa", 0, 0, d))
                 nh += 1
                 ops.append(op("waitfor", nh, 0, max(0, d + rng.choice([-1, 0, 0, 1]))))
-                if rng.random() < 0.7:
-                    ops.append(op("wait", nh))
+                ops.append(op("wait", nh))     # always: two executions must never overlap on the actor's host (exact durations)
             elif k == "acqt" and ns:
                 ops.append(op("acqt", rng.randint(1, ns), 0, rng.randint(0, 4)))
             elif k == "rel" and ns:
